@@ -12,6 +12,19 @@ Proof. cbn. lra. Qed.
 Ltac portfolio :=
   first [ reflexivity | lra | nra | (field; auto; lra) | (ring_simplify; lra) | ring ].
 Ltac tuple_eq := repeat (apply f_equal2); portfolio.
+(* a boolean test over real comparisons against its propositional reading: case analysis on every comparison *)
+Ltac bool_real :=
+  cbn [eqb ltb leb RO ofZ]; unfold Reqb, Rltb, Rleb;
+  repeat match goal with
+         | |- context [Req_EM_T ?a ?b] => destruct (Req_EM_T a b)
+         | |- context [Rlt_dec ?a ?b] => destruct (Rlt_dec a b)
+         | |- context [Rle_dec ?a ?b] => destruct (Rle_dec a b)
+         end;
+  cbn; split; intros;
+  first [ reflexivity | discriminate
+        | (intros [? ?]; subst; first [lra | congruence | contradiction])
+        | (exfalso; match goal with H : ~ _ |- _ => apply H; split; subst; first [lra | congruence] end)
+        | (subst; intuition (first [lra | congruence])) ].
 
 Lemma gen_cf_axis_arith_char first last nb :
   gen_cf_axis_arith RO first last nb =
@@ -34,17 +47,9 @@ Proof. unfold gen_rio_area. tuple_eq. Qed.
 
 (* the refusal test is exactly "some rotation term is non-zero" *)
 Lemma gen_gdal_rotated_char b d : gen_gdal_rotated RO b d = true <-> ~ (b = 0 /\ d = 0).
-Proof.
-  unfold gen_gdal_rotated; cbn [eqb RO ofZ]. unfold Reqb.
-  destruct (Req_EM_T b d) as [E|E]; destruct (Req_EM_T d 0) as [E0|E0]; cbn; split; intros H; try easy; try (intros [? ?]; lra).
-  - exfalso. apply H. split; lra.
-Qed.
+Proof. unfold gen_gdal_rotated. bool_real. Qed.
 Lemma gen_rio_rotated_char b d : gen_rio_rotated RO b d = true <-> ~ (b = 0 /\ d = 0).
-Proof.
-  unfold gen_rio_rotated; cbn [eqb RO ofZ]. unfold Reqb.
-  destruct (Req_EM_T b d) as [E|E]; destruct (Req_EM_T d 0) as [E0|E0]; cbn; split; intros H; try easy; try (intros [? ?]; lra).
-  - exfalso. apply H. split; lra.
-Qed.
+Proof. unfold gen_rio_rotated. bool_real. Qed.
 
 Lemma gen_geos_scale_char (x : cf_axis R) h :
   gen_geos_scale RO x h = mk_axis (ax_first x * h) (ax_last x * h) (ax_spacing x * h) (ax_nb x) (ax_sign x).
